@@ -140,7 +140,10 @@ with block :=
 with chain :=
 | CEnd
 | CElse (b : block)                                 (* ELSE { b } *)
-| CElseIf (c : expr) (b : block) (ch : chain).      (* ELSEIF (c) { b } ch *)
+| CElseIf (c : expr) (b : block) (ch : chain)       (* ELSEIF (c) { b } ch *)
+| CElseSp (c : expr) (b : block) (ch : chain).      (* ELSE IF (c) { b } ch   -- with a space: by the macros an IF
+                                                       scope nested in an ELSE scope (dangling-else idiom); the
+                                                       destructor of ConditionalScope has a special case for it *)
 
 (* The brief's presentation  If c then_s (list (c * s)) (option else_s)  *)
 Fixpoint mk_chain (elifs : list (expr * block)) (els : option block) : chain :=
@@ -264,6 +267,16 @@ with run_chain (ch : chain) (E : env) : option (env * list rdval) :=
       | None => None
       end
   | CElseIf c b ch' =>
+      match cond_val (eval_expr E c) with
+      | None => None
+      | Some true =>
+          match run_block b E with
+          | Some (E', r) => Some (lastn (length E) E', r)
+          | None => None
+          end
+      | Some false => run_chain ch' E
+      end
+  | CElseSp c b ch' =>
       match cond_val (eval_expr E c) with
       | None => None
       | Some true =>
@@ -578,7 +591,35 @@ with elab_chain (ch : chain) (st : est) : est :=
       let (cn, G1) := elab_expr (eSigs st) c (eG st) in
       let st1 := ctor_elseif cn (set_G st G1) in
       elab_chain ch' (dtor (leave_block (length (eSigs st)) (elab_block b st1)))
+  | CElseSp c b ch' =>
+      (* if (ConditionalScope{ElseCase{}}) if (ConditionalScope{c}) { b }   then both destructors *)
+      let st1 := ctor_else st in
+      let (cn, G1) := elab_expr (eSigs st1) c (eG st1) in
+      let st2 := ctor_if cn (set_G st1 G1) in
+      let st3 := dtor (leave_block (length (eSigs st)) (elab_block b st2)) in
+      elab_chain ch' (dtor st3)
   end.
+
+(* The ELSE destructor recognises "a nested scope was closed" by comparing node ports
+   (m_lastConditionOnEntry != m_lastCondition).  That test fails when the IF of an `ELSE IF (c)`
+   has the very port the chain's previous condition had, which needs c to be a bare variable
+   reference; any operator creates a fresh node.  [no_bare_else_if] excludes exactly that. *)
+Definition fresh_cond (c : expr) : bool := match c with ESig _ => false | _ => true end.
+Fixpoint nbe_stmt (s : stmt) : bool :=
+  match s with
+  | If _ th ch => nbe_block th && nbe_chain ch
+  | _ => true
+  end
+with nbe_block (b : block) : bool :=
+  match b with BNil => true | BCons s b' => nbe_stmt s && nbe_block b' end
+with nbe_chain (ch : chain) : bool :=
+  match ch with
+  | CEnd => true
+  | CElse b => nbe_block b
+  | CElseIf _ b ch' => nbe_block b && nbe_chain ch'
+  | CElseSp c b ch' => fresh_cond c && nbe_block b && nbe_chain ch'
+  end.
+Definition no_bare_else_if (p : block) : bool := nbe_block p.
 
 (* s_nextId is a thread_local static initialised to 1 and never reset; n0 is its value when
    the design is started. *)
